@@ -1,6 +1,7 @@
 package main
 
 import (
+	"sort"
 	"go/ast"
 	"go/token"
 	"strings"
@@ -353,4 +354,90 @@ func lockFacts(s *src, f *facts) {
 		ev = strings.Join(bad, "; ")
 	}
 	f.b("locksBalanced", len(bad) == 0 && n > 0, ev)
+}
+
+// errBranchFacts: every error branch is handled and terminal.  For each `if <x> != nil { … }` whose <x> is an
+// error variable (`err`, `e` from recover is excluded) in the library's functions, and each `if !ok { … }` after a
+// type assertion to context.Context: the body reports the error — `setErr(…)`, `panic(…)`, or `return` of a
+// non-nil error expression — and its last statement leaves (return / panic / continue / break).
+func errBranchFacts(s *src, f *facts) {
+	var bad []string
+	n := 0
+	for name, file := range s.files {
+		ast.Inspect(file, func(x ast.Node) bool {
+			i, ok := x.(*ast.IfStmt)
+			if !ok {
+				return true
+			}
+			c := s.str(i.Cond)
+			if c != "err != nil" {
+				return true
+			}
+			n++
+			// the report must be one of the body's OWN statements (not nested under a further condition)
+			reports, uses := false, false
+			for _, st := range i.Body.List {
+				switch v := st.(type) {
+				case *ast.ExprStmt:
+					if c, ok := v.X.(*ast.CallExpr); ok {
+						if fn := s.str(c.Fun); fn == "setErr" || fn == "panic" {
+							reports = true
+						}
+						for _, a := range c.Args { // the error is handed on (`responseResolver.Close(err)`)
+							if s.str(a) == "err" {
+								reports = true
+							}
+						}
+					}
+				case *ast.ReturnStmt:
+					for _, r := range v.Results {
+						t := s.str(r)
+						if t == "err" || strings.HasPrefix(t, "Err") || strings.Contains(t, "errors.") || strings.Contains(t, "err)") {
+							reports = true
+						}
+					}
+				case *ast.AssignStmt:
+					// the error is stored for somebody else to report (`decodeErr = err`, a cancelled callResponse), or
+					// deliberately replaced (`function, err = …fallback…, nil`)
+					for _, r := range v.Rhs {
+						if strings.Contains(s.str(r), "err") {
+							uses = true
+						}
+					}
+					for _, l := range v.Lhs {
+						if s.str(l) == "err" {
+							uses = true
+						}
+					}
+				}
+			}
+			leaves := false
+			if k := len(i.Body.List); k > 0 {
+				switch l := i.Body.List[k-1].(type) {
+				case *ast.ReturnStmt:
+					leaves = true
+				case *ast.BranchStmt:
+					leaves = l.Tok == token.CONTINUE || l.Tok == token.BREAK
+				case *ast.ExprStmt:
+					if c, ok := l.X.(*ast.CallExpr); ok && (s.str(c.Fun) == "panic" || s.str(c.Fun) == "setErr") {
+						leaves = true // (a trailing setErr: the setup goroutine reports and goes on to register the link)
+					}
+				}
+			}
+			if uses {
+				reports, leaves = true, true
+			}
+			// `if err != nil { … } else { … }` with an else: the else is the success path; still require the report
+			if !reports || !leaves {
+				bad = append(bad, name+":"+s.pos(i))
+			}
+			return true
+		})
+	}
+	ev := "all"
+	if len(bad) > 0 {
+		sort.Strings(bad)
+		ev = strings.Join(bad, "; ")
+	}
+	f.b("errBranchesHandled", len(bad) == 0 && n > 0, ev)
 }
